@@ -69,6 +69,17 @@ CHECKS = {
         note="non-runner liability formula taken from the repository's documented issue #454",
         design="4/C09",
     ),
+    "C08": dict(
+        category="exploration",
+        technique="Hypothesis-generated simulation runs (real matching installs the fills, real CLOSED book delivers results) "
+                  "judged by an exact Fraction settlement oracle, a mirror-order antisymmetry relation and the cleared summary",
+        text="Fills come from aggressive multi-level matches, passive fills, SP reconciliation and non-runner reductions; results "
+             "cover win/lose/placed/removed, 2-5 way dead heats, each-way divisors 2-5, line results incl. 0 and ties, four "
+             "commission rates, one or two clients. Two recorded genuine defects (line tie, multi-line fills) are reported as "
+             "KNOWN-FINDING. Held otherwise on everything explored.",
+        note="tolerances follow the 2dp average price the code and the exchange API carry; each-way with dead heat outside",
+        design="4/C08",
+    ),
 }
 
 NOT_BUILT_REASON = "check not built yet (build in progress; see DESIGN.md section 4)"
